@@ -8,4 +8,4 @@ Extraction "c05_model.ml"
   Z.add Z.mul Z.opp Z.abs Z.div_eucl Z.sub Z.eqb Z.leb Z.ltb Z.of_nat Z.to_nat
   Base.FILL
   C05.c05_S C05.c05_fx_face_area C05.c05_fx_grid_areas C05.c05_fx_gauss_table C05.c05_fx_tri_table
-  c05_gauss_okb c05_tri_okb C05.c05_default_rule c05_default_order c05_default_latlon.
+  c05_gauss_okb c05_tri_okb C05.c05_default_rule c05_default_order c05_default_latlon c05_dim_cartesian3.
